@@ -111,9 +111,45 @@ fn strategy(ctx: &Ctx) -> BoxedStrategy<Case> {
                 prop_oneof![3 => Just(Cmd::Backup), 2 => Just(Cmd::Prune), 1 => Just(Cmd::Copy)],
                 any::<bool>(),
                 prop::collection::vec(perturb(), n..=n),
+                // a wide directory: this many sub-directories with pairwise different trees (the
+                // tree streamers of prune / copy / check keep one request per sub-tree in flight)
+                prop::option::weighted(0.15, prop_oneof![60u16..100, 100u16..400]),
             )
         })
-        .prop_map(|(cfg, tree, edits, cmd, fast_repack, mut perturbations)| {
+        .prop_map(|(mut cfg, mut tree, edits, cmd, fast_repack, mut perturbations, wide)| {
+            // every case runs its command 5–10 times: zstd's ultra levels (seconds and gigabytes per
+            // run, serialised across workers) buy nothing for this property
+            if cfg.compression.is_some_and(|l| l > 19) {
+                cfg.compression = Some(19);
+            }
+            if let (Some(n), Some(ch)) = (wide, tree.children_mut()) {
+                if !ch.iter().any(|c| c.name == b"zz-wide") {
+                    let leaf = |name: Vec<u8>, kind: crate::model::MKind, inode: u64| MNode {
+                        name,
+                        kind,
+                        perm: 0o755,
+                        mtime: crate::model::MTime(1_600_000_000, 0),
+                        ctime: crate::model::MTime(1_600_000_000, 0),
+                        uid: 0,
+                        gid: 0,
+                        inode,
+                        device: 7,
+                        links: 1,
+                    };
+                    let subs: Vec<MNode> = (0..u64::from(n))
+                        .map(|i| {
+                            let f = leaf(
+                                b"f".to_vec(),
+                                crate::model::MKind::File { content: crate::model::Content::lit(format!("{i}").into_bytes()) },
+                                9_600_000 + 2 * i,
+                            );
+                            leaf(format!("w{i:04}").into_bytes(), crate::model::MKind::Dir { children: vec![f] }, 9_600_001 + 2 * i)
+                        })
+                        .collect();
+                    ch.push(leaf(b"zz-wide".to_vec(), crate::model::MKind::Dir { children: subs }, 9_599_999));
+                }
+                tree.normalise();
+            }
             // the first run is the unperturbed one with the case's own pack settings
             perturbations[0] = Perturb {
                 lat_seed: 0,
@@ -292,6 +328,7 @@ fn one_run_inner(c: &Case, p: &Perturb, cfg: &RepoCfg, key: &[u8; 64]) -> Result
 
 pub fn run(c: &Case, _ctx: &Ctx) -> Outcome {
     let mut out = Outcome::pass()
+        .class_if(c.tree.children().iter().any(|n| n.name == b"zz-wide"), "wide_directory")
         .class(format!("{:?}", c.cmd))
         .class(format!("rayon_threads_{}", std::env::var("RAYON_NUM_THREADS").unwrap_or_else(|_| "default".into())));
     let mut reference: Option<RunResult> = None;
